@@ -185,7 +185,7 @@ class Problem(object):
 
     def matches(self, seq):
         concrete = [R.OTHER if s == R.WILDCARD else s for s in seq]
-        return [r.fullmatch(concrete) for r in self.refs]
+        return [r.complete(concrete) for r in self.refs]
 
 
 def judge_case(make_matching_sequence, Impossible, required, texts, trees, depth_limit, symbol_priority, col,
